@@ -437,8 +437,8 @@ def basis_function_ders_one(degree, knot_vector, span, knot, order):
     # The basis function value is the zeroth derivative
     ders[0] = N[0][degree]
 
-    # Computing the basis functions derivatives
-    for k in range(1, order + 1):
+    # Computing the basis functions derivatives (the derivatives of the orders higher than the degree are zero)
+    for k in range(1, min(degree, order) + 1):
         # Buffer for computing the kth derivative
         ND = [0.0 for _ in range(0, k + 1)]
 
